@@ -48,7 +48,8 @@
 # chunkings(n, boundaries, rng, tier, max_chunks=4096) -> iter[list[int]]   chunk length lists summing to n
 # split(data, chunks) -> [bytes]
 # zones_of(data) -> set                        advisory byte predicates for F1..F4 (property plugins own the
-#   zone_vmdk_text zone_vmdk_shortfoot zone_vhdx_backptr zone_vhdx_metasig      canonical ones)
+#   zone_vmdk_text zone_vmdk_shortfoot zone_vhdx_backptr zone_vhdx_metasig      canonical ones) + 'F1n'
+#   zone_vmdk_earlyparse; ZONE_FORMAT, zones_for(fmt, zones): which inspector a zone concerns
 # run_inspector(fmt, data, chunks=None, finish=True) -> inspector   fresh REAL inspector fed the chunks;
 #                             .imgbuild_error = first exception raised by eat_chunk (feeding stops there)
 # run_all(data, chunks=None) -> {fmt: inspector}
@@ -880,6 +881,7 @@ def vmdk_descriptor(rng=None, create_type='monolithicSparse', create_type_form='
     else:
         reject.append('vmdk_createtype_other')
     n_ext = 0
+    seen_real = shadowed = False
     for cls, text in lines:
         if cls == 'junk':
             reject.append('vmdk_unrecognised_line')
@@ -892,10 +894,19 @@ def vmdk_descriptor(rng=None, create_type='monolithicSparse', create_type_form='
                 reject.append('vmdk_extent_path')
             elif path != 'none':
                 unspec.append('vmdk_extent_' + path)
-        if cls not in ('junk', 'quirk', 'createtype') and 'createtype="' in text.lower():
-            unspec.append('vmdk_createtype_shadowed')
+        if cls != 'createtype' and 'createtype="' in text.lower():
+            # a second createType token (in a comment, a value, a duplicate line): the text does not say which counts
+            unspec.append('vmdk_createtype_duplicate')
+            if not seen_real:
+                shadowed = True
+        if cls == 'createtype':
+            seen_real = True
     if n_ext == 0:
         reject.append('vmdk_no_extent')
+    if shadowed:
+        # the other token comes first: whether the declared (later) type counts is not settled by the property text
+        unspec += [r + '_shadowed' for r in reject if r.startswith('vmdk_createtype')]
+        reject = [r for r in reject if not r.startswith('vmdk_createtype')]
     text = newline.join(t for _c, t in lines)
     if trailing_newline:
         text += newline
@@ -1192,7 +1203,7 @@ def build_vhdx(rng=None, **params):
         rpb = rng.choice([0, 0, 1, 1, 2, 5])
     rpa = p.get('region_pad_after')
     if rpa is None:
-        rpa = rng.choice([0, 1, 1, 2]) if rpb < 2046 else 0
+        rpa = max(0, min(rng.choice([0, 1, 1, 2]), 2046 - rpb))
     inc_meta = p.get('include_meta_entry', True)
     rents = p.get('region_entries')
     if rents is None:
@@ -1223,7 +1234,7 @@ def build_vhdx(rng=None, **params):
         mpb = rng.choice([0, 1, 2, 4, 4])
     mpa = p.get('meta_pad_after')
     if mpa is None:
-        mpa = rng.choice([0, 0, 1, 3]) if mpb < 2046 else 0
+        mpa = max(0, min(rng.choice([0, 0, 1, 3]), 2046 - mpb))
     inc_vds = p.get('include_vds_entry', True)
     item_length = p.get('item_length', 8)
     ments = p.get('meta_entries')
@@ -1431,6 +1442,24 @@ def zone_vmdk_shortfoot(b):
     return ver in (1, 2, 3) and gd == GD_AT_END
 
 
+def zone_vmdk_earlyparse(b):
+    """F1n (found while building this library, same root cause as F1): no KDMV signature and a createType token in
+    the ASCII text before the first NUL.  The BOF descriptor region (min_length=4) is parsed once, on whatever the first
+    chunks delivered, so vmdktype / virtual_size depend on the chunking even when the head is not all printable."""
+    if len(b) < 4 or b[:4] == VMDK_MAGIC:
+        return False
+    head = bytes(b[:VMDK_DESC_MAX]).split(b'\0')[0]
+    return b'createtype="' in head.lower()
+
+
+ZONE_FORMAT = {'F1': 'vmdk', 'F1n': 'vmdk', 'F3': 'vmdk', 'F2': 'vhdx', 'F4': 'vhdx'}
+
+
+def zones_for(fmt, zones):
+    """The subset of zone names that concern the inspector of that format."""
+    return {z for z in zones if ZONE_FORMAT.get(z) == fmt}
+
+
 def _vhdx_walk(b):
     """(meta_offset|None, meta_sig_ok|None, entries_size|None, item_offset|None) by a whole-buffer table walk."""
     if len(b) < VHDX_HEADER_END:
@@ -1488,6 +1517,8 @@ def zones_of(b):
         z.add('F1')
     if zone_vmdk_shortfoot(b):
         z.add('F3')
+    if zone_vmdk_earlyparse(b):
+        z.add('F1n')
     if len(b) >= VHDX_HEADER_END:
         if zone_vhdx_backptr(b):
             z.add('F2')
